@@ -1,7 +1,7 @@
 """C06 (partial, bounded) — Rust guest bindings neither leak nor double-free: Kani on the real generator's output for a probe
 world with every heap block going through a ledger (stubs on the allocator entry points)."""
 LEVEL = 'other'
-import os
+import os, re
 from vlib import kani
 from vlib.kani import Harness
 from . import rustgen
@@ -14,10 +14,34 @@ HARNESSES = [
     Harness('c06_variant_string_memory_balanced', 'heap.variant_string_case', G + 'variant whose string case owns a buffer: post-return frees exactly when the result holds one', bounded=HEAP),
     Harness('c06_list_of_pairs_memory_balanced', 'heap.list_of_tuples', G + 'list<tuple<u8, u32, u8>>: host buffer freed by the guest after conversion, result buffer freed by post-return', bounded=HEAP),
     Harness('c06_import_nested_list_scratch_alive_during_call_freed_once', 'heap.import_nested_list_scratch_alive_during_call_freed_once', G + 'import with option<list<string>>: ListLower + Cleanup / cleanup_list scoping (crates/rust/src/bindgen.rs)', bounded=HEAP),
+    Harness('c06_record_with_heap_fields_memory_balanced', 'heap.record_with_heap_fields', G + 'record with a string and a list field: both buffers taken over / released', bounded=HEAP),
+    Harness('c06_result_with_string_memory_balanced', 'heap.result_with_string', G + 'result<string, u32>: post-return frees exactly when the result is ok', bounded=HEAP),
+    Harness('c06_list_of_mixed_records_result_len0', 'heap.list_of_mixed_records_result_len0', G + 'list<record { u64, string }>: elements and list freed with the sizes they were allocated with, empty result', bounded=HEAP),
+    Harness('c06_list_of_mixed_records_result_len1', 'heap.list_of_mixed_records_result_len1', G + 'list<record { u64, string }>: elements and list freed with the sizes they were allocated with, 1 element returned', bounded=HEAP),
+    Harness('c06_list_of_mixed_records_param_len1', 'heap.list_of_mixed_records_param_len1', G + 'list<record { u64, string }>: elements and list freed with the sizes they were allocated with, 1 element sent', bounded=HEAP),
+    Harness('c06_list_of_mixed_records_result_len2', 'heap.list_of_mixed_records_result_len2', G + 'list<record { u64, string }>: elements and list freed with the sizes they were allocated with, 2 elements returned', bounded=HEAP),
+    Harness('c06_list_of_mixed_records_param_len2', 'heap.list_of_mixed_records_param_len2', G + 'list<record { u64, string }>: elements and list freed with the sizes they were allocated with, 2 elements sent', bounded=HEAP),
+    Harness('c06_list_of_strings_result_len0', 'heap.list_of_strings_result_len0', G + 'list<string> (element-wise list), empty result', bounded=HEAP),
+    Harness('c06_list_of_strings_result_len1', 'heap.list_of_strings_result_len1', G + 'list<string> (element-wise list), 1 element returned', bounded=HEAP),
+    Harness('c06_list_of_strings_result_len2', 'heap.list_of_strings_result_len2', G + 'list<string> (element-wise list), 2 elements returned', bounded=HEAP),
+    Harness('c06_list_of_strings_param_len1', 'heap.list_of_strings_param_len1', G + 'list<string> (element-wise list), 1 element sent', bounded=HEAP),
+    Harness('c06_list_of_strings_param_len2', 'heap.list_of_strings_param_len2', G + 'list<string> (element-wise list), 2 elements sent', bounded=HEAP),
 ]
-# about nine minutes of CBMC: thorough tier only
+# nothing is thorough-only since list lengths are fixed per harness
 THOROUGH = [
-    Harness('c06_list_of_strings_memory_balanced', 'heap.list_of_strings', G + 'list<string>: host list buffer freed by the guest, element buffers taken over, result list + elements freed by post-return', bounded=HEAP),
+]
+
+GM = 'generated Rust bindings for kani/rustgen_map/probe.wit with --map-type crate::VecMap (crates/rust/src/bindgen.rs MapLift / MapLower / IterMapKey / IterMapValue / GuestDeallocateMap arms) — '
+MAPB = 'one probe world; the map type is the harness\'s vector of pairs (the generator\'s --map-type option; the default BTreeMap does not get through CBMC); number of entries fixed per obligation at 0, 1 or 2, keys <= 1 ASCII byte'
+MAP_HARNESSES = [
+    Harness('c06_map_result_len0', 'heap.map_result_len0', GM + 'map<string, u32> through an export, empty result', bounded=MAPB),
+    Harness('c06_map_result_len1', 'heap.map_result_len1', GM + 'map<string, u32> through an export, 1 entry returned', bounded=MAPB),
+    Harness('c06_map_result_len2', 'heap.map_result_len2', GM + 'map<string, u32> through an export, 2 entries returned', bounded=MAPB),
+    Harness('c06_map_param_len1', 'heap.map_param_len1', GM + 'map<string, u32> through an export, 1 entry sent', bounded=MAPB),
+    Harness('c06_map_param_len2', 'heap.map_param_len2', GM + 'map<string, u32> through an export, 2 entries sent', bounded=MAPB),
+    Harness('c06_import_nested_map_scratch_len0', 'heap.import_nested_map_scratch_len0', GM + 'import with option<map<string, u32>> of 0 entries: scratch buffer alive during the call, freed once, borrowed map untouched', bounded=MAPB),
+    Harness('c06_import_nested_map_scratch_len1', 'heap.import_nested_map_scratch_len1', GM + 'import with option<map<string, u32>> of 1 entries: scratch buffer alive during the call, freed once, borrowed map untouched', bounded=MAPB),
+    Harness('c06_import_nested_map_scratch_len2', 'heap.import_nested_map_scratch_len2', GM + 'import with option<map<string, u32>> of 2 entries: scratch buffer alive during the call, freed once, borrowed map untouched', bounded=MAPB),
 ]
 
 
@@ -30,7 +54,16 @@ def run(rep, tier):
                'out-of-bounds accesses are (CBMC pointer checks).')
     d = rustgen.generate(rep, 'rustgen_val', mock=True)
     hs = HARNESSES + (THOROUGH if tier == 'thorough' else [])
-    if tier != 'thorough':
-        rep.notes.append('the list<string> obligation (nested element-wise list, ~9 min of CBMC) runs in the thorough tier only')
+    if os.environ.get('VERIF_ONLY'):   # development aid: run a subset (never used by the registered commands)
+        import re
+        hs = [h for h in hs if re.search(os.environ['VERIF_ONLY'], h.name)]
+    mh = MAP_HARNESSES
+    if os.environ.get('VERIF_ONLY'):
+        mh = [h for h in mh if re.search(os.environ['VERIF_ONLY'], h.name)]
+    if mh:
+        dm = rustgen.generate(rep, 'rustgen_map', extra_args=['--map-type', 'crate::VecMap'], mock=True)
+        kani.run_harnesses(rep, dm, mh, None, 'kani-rustgen', timeout_each=900, harness_file=os.path.join(dm, 'src/lib.rs'), playback_features='values-only', guard=False, canary_id='canary.kani.map')
+    if not hs:
+        return
     kani.run_harnesses(rep, d, hs, None, 'kani-rustgen', timeout_each=900, harness_file=os.path.join(d, 'src/lib.rs'),
                        playback_features='values-only', guard=False)
